@@ -838,8 +838,24 @@ impl<'a> G<'a> {
         } else if self.rng.chance(1, 6) {
             // direct Array(Bool) value
             let saved = (self.used.clone(), self.used_in_list.clone());
+            if self.rng.chance(1, 3) {
+                // a bare boolean-array path that has no value in many contexts, plain or in
+                // (redundant) parentheses: `all` of nothing is true on either route
+                let (n, txt) = *self.rng.pick(&[("oab", "oab"), ("aab", "aab[7]"), ("mab", "mab[\"zz\"]"), ("aab", "aab[4294967295]"), ("oab", "oab[*]")]);
+                if let Some(i) = self.spec.field_index(n) {
+                    self.note_field(i);
+                    self.stats.push("quant.bare.absent-prone");
+                    return match self.rng.below(3) {
+                        0 => txt.to_string(),
+                        1 => format!("({txt})"),
+                        _ => format!("(({txt}))"),
+                    };
+                }
+            }
             match self.path_to(Type::Bool, 1, false) {
-                Some((p, _)) if !p.is_empty() && self.path_is_array(&p) => p,
+                Some((p, _)) if !p.is_empty() && self.path_is_array(&p) => {
+                    if self.rng.chance(1, 2) { format!("({p})") } else { p }
+                }
                 _ => {
                     // the candidate path is discarded: it was not written
                     self.used = saved.0;
@@ -931,6 +947,21 @@ impl<'a> G<'a> {
             4 => {
                 let (a1, _) = self.path_to(Type::Bytes, 1, false).unwrap();
                 let (a2, _) = self.path_to(Type::Bytes, 1, false).unwrap();
+                if self.rng.chance(1, 2) && self.path_is_array(&a1) && self.path_is_array(&a2) {
+                    // three to five arrays, with arguments that are absent in many contexts in
+                    // the middle: absent arguments are skipped, the ones after them are kept
+                    self.stats.push("value.concat.many");
+                    let mut args = vec![a1];
+                    for _ in 0..(1 + self.rng.below(3)) {
+                        let (n, txt) = *self.rng.pick(&[("oay", "oay"), ("may", "may[\"zz\"]"), ("aay", "aay[9]"), ("ay", "ay")]);
+                        if let Some(i) = self.spec.field_index(n) {
+                            self.note_field(i);
+                            args.push(txt.to_string());
+                        }
+                    }
+                    args.push(a2);
+                    return format!("concat({o}{})", args.join(", "));
+                }
                 format!("concat({o}{a1}, {a2})")
             }
             5 => {
